@@ -74,6 +74,12 @@ def recipes():
           R_("nan_to_num:all_fills", "LLLL", lambda np, a, z_, p_, n_: np.nan_to_num(a * np.where(np.arange(a.size).reshape(a.shape) % 2 == 0, np.inf, 1.0), nan=z_.ravel()[0], posinf=p_.ravel()[0], neginf=n_.ravel()[0])),
           R_("max:initial", "LL", lambda np, a, b: np.max(a, initial=b.ravel()[0])), R_("min:initial", "LL", lambda np, a, b: np.min(a, initial=b.ravel()[0])),
           R_("sum:initial", "LL", lambda np, a, b: np.sum(a, initial=b.ravel()[0])),
+          # a reduction whose cells multiply different numbers of factors (where-mask with 0, 1 and 2 factors per column): no single unit
+          # describes the result of a dimensional input (must be refused); a dimensionless input is fine
+          R_("prod:axis_where", "L", lambda np, a: np.prod(np.resize(a, (3, 3)), axis=0, where=np.array([[False, True, True], [False, False, True], [False, False, False]])),
+             raises="DimensionalityError"),
+          R_("prod:axis_where:dimensionless", "D", lambda np, a: np.prod(np.resize(a, (3, 3)), axis=0, where=np.array([[False, True, True], [False, False, True], [False, False, False]])), out="dimless"),
+          R_("power:quantity_exponent", "DD", lambda np, a, e: np.power(1 + np.abs(a), e / (1 + np.abs(e))), out="dimless"),
           R_("append", "LL", lambda np, a, b: np.append(a, b)), R_("concatenate", "LL", lambda np, a, b: np.concatenate([a.ravel(), b.ravel()])), R_("stack", "LL", lambda np, a, b: np.stack([a.ravel(), b.ravel()])),
           R_("hstack", "LL", lambda np, a, b: np.hstack([a.ravel(), b.ravel()])), R_("vstack", "LL", lambda np, a, b: np.vstack([a.ravel(), b.ravel()])), R_("dstack", "LL", lambda np, a, b: np.dstack([a.ravel(), b.ravel()])),
           R_("column_stack", "LL", lambda np, a, b: np.column_stack([a.ravel(), b.ravel()])), R_("block", "LL", lambda np, a, b: np.block([a.ravel(), b.ravel()])),
@@ -258,6 +264,14 @@ def case_call(case, col=None):
     argsA = build_args(np, ureg, R, rec, arrays, uA)
     keepA = [a.magnitude.copy() for a in argsA]
     sA, rA = attempt(rec["fn"], np, *argsA)
+    if rec.get("raises"):
+        sB, rB = attempt(rec["fn"], np, *build_args(np, ureg, R, rec, arrays, case["unitsB"]))
+        for s_, r_, u_ in ((sA, rA, uA), (sB, rB, case["unitsB"])):
+            if s_ == "ok":
+                raise Violation(f"numpy_accepts_inexpressible_result:{rec['name']}", f"np.{rec['name']} on units {u_} returned {r_!r}; the cells of the result have different dimensions")
+            if type(r_).__name__ != rec["raises"]:
+                raise Violation(f"numpy_call_raised:{rec['name']}:{exc_class(r_)}", f"np.{rec['name']} on units {u_} raised {type(r_).__name__}: {r_} (expected {rec['raises']})")
+        return
     if sA == "err":
         raise Violation(f"numpy_call_raised:{rec['name']}:{exc_class(rA)}", f"np.{rec['name']} on units {uA}, shape {shape} raised {type(rA).__name__}: {rA}")
     if not rec.get("inplace"):
